@@ -15,6 +15,8 @@ func init() {
 		p := p
 		cmds[p] = func(a []string) error { return runSrv(strings.ToUpper(p), a) }
 	}
+	// C01 at the server: the scripts of C06, judged by "installed = fold of the acknowledgements seen on the streams"
+	cmds["c01srv"] = func(a []string) error { return runSrv("C01S", a) }
 }
 
 // ---------------------------------------------------------------------------- generator
@@ -130,6 +132,10 @@ func (g *srvGen) opsMsg(s int, n int) {
 			op.Elec = g.stamp(s)
 		}
 		st.Ops = append(st.Ops, op)
+	}
+	if n >= 2 && g.r.Chance(1, 8) {
+		// an empty / unknown instance name on an operation that is not the last of its request
+		st.Ops[g.r.Intn(n-1)].NI = drv.Pick(g.r, 0, 0, 4)
 	}
 	g.add(st)
 	// a fatal error ends the RPC: the generator cannot know, but the runner tolerates steps on dead sessions
@@ -375,8 +381,14 @@ func genC08(g *srvGen) drv.SCase {
 		g.add(drv.SStep{K: "get", Get: &drv.GetSpec{NI: "all", AFT: "ALL"}})
 		g.add(drv.SStep{K: "flush", Flush: f})
 		g.add(drv.SStep{K: "get", Get: &drv.GetSpec{NI: "all", AFT: "ALL"}})
-		// deletion protection after the flush agrees with what remains: probe deletes
+		// deletion protection after the flush agrees with what remains: probe deletes, also of a group that is
+		// programmed again in the flushed instance (entries of other instances may still point at it)
 		if !noElection {
+			if f.NI == "name" && f.Name >= 1 && f.Name <= 3 && r.Chance(1, 2) {
+				mk(drv.OpSpec{NI: f.Name, Kind: "ADD", T: "nh", Key: 1})
+				mk(drv.OpSpec{NI: f.Name, Kind: "ADD", T: "nhg", Key: uint64(1 + r.Intn(2)), NHs: [][2]uint64{{1, 1}}})
+				mk(drv.OpSpec{NI: f.Name, Kind: "DELETE", T: "nhg", Key: uint64(1 + r.Intn(2))})
+			}
 			mk(drv.OpSpec{NI: drv.Pick(r, 1, 2, 3), Kind: "DELETE", T: drv.Pick(r, "nh", "nhg"), Key: uint64(1 + r.Intn(2))})
 		}
 	}
@@ -414,7 +426,29 @@ func genC09(g *srvGen) drv.SCase {
 			}
 			return drv.SStep{K: "ops", S: s, Ops: ops}
 		case x < 19:
-			return drv.SStep{K: "multi", S: s}
+			// two or three fields populated at once; the election id high enough to win and the operation one
+			// that would be accepted, so that any effect of the rejected message shows
+			st := drv.SStep{K: "multi", S: s}
+			hi := drv.U128{Hi: 3, Lo: uint64(1 + r.Intn(5))}
+			op := drv.OpSpec{ID: g.id(), NI: 1, Kind: "ADD", T: "nh", Key: uint64(1 + r.Intn(3))}
+			if g.last[s] != nil {
+				c := *g.last[s]
+				op.Elec = &c
+			}
+			switch r.Intn(5) {
+			case 0:
+				st.Red, st.Pers, st.ID = 1, 1, &hi
+			case 1:
+				st.Red, st.Pers, st.Ops = 1, 1, []drv.OpSpec{op}
+			case 2:
+				st.ID, st.Ops = &hi, []drv.OpSpec{op}
+			case 3:
+				op.Elec = &hi
+				st.ID, st.Ops = &hi, []drv.OpSpec{op}
+			case 4:
+				st.Red, st.Pers, st.ID, st.Ops = 1, 1, &hi, []drv.OpSpec{op}
+			}
+			return st
 		case x < 20:
 			return drv.SStep{K: "none", S: s}
 		case x < 21:
@@ -728,6 +762,15 @@ func checkC09(st drv.SStep, o drv.SObs, i int, el *electionTracker, x *drv.SRun)
 	if st.K == "params" && len(o.Resps) == 1 && o.Resps[0].GetSessionParamsResult() != nil && (st.Red != 1 || st.Pers != 1) {
 		return fmt.Sprintf("step %d: session parameters redundancy=%d persistence=%d accepted, only SINGLE_PRIMARY(1)/PRESERVE(1) is supported", i, st.Red, st.Pers)
 	}
+	// a violation that is answered instead of ending the RPC
+	if len(o.Resps) > 0 && o.End == nil {
+		switch {
+		case st.K == "elect" && st.ID.IsZero():
+			return fmt.Sprintf("step %d: a zero election id was answered (%s) instead of ending the RPC with InvalidArgument", i, drv.OutText(drv.ObsOut{Resps: o.Resps}))
+		case st.K == "multi", st.K == "none":
+			return fmt.Sprintf("step %d: a %s message was answered (%s) instead of ending the RPC", i, st.K, drv.OutText(drv.ObsOut{Resps: o.Resps}))
+		}
+	}
 	if o.End == nil || x.Sess[st.S] == nil {
 		return ""
 	}
@@ -758,6 +801,74 @@ func checkC09(st drv.SStep, o drv.SObs, i int, el *electionTracker, x *drv.SRun)
 	return ""
 }
 
+// ackFold: C01 at the server.  The entries installed in the RIB must be the fold, in acknowledgement order, of the
+// operations answered RIB_PROGRAMMED on any stream (looked up by id in the script) and of the authorised flushes.
+type ackFold struct {
+	spec specRIB
+	ops  map[uint64]drv.OpSpec
+}
+
+func newAckFold() *ackFold { return &ackFold{spec: specRIB{}, ops: map[uint64]drv.OpSpec{}} }
+
+func (a *ackFold) observe(i int, st drv.SStep, o drv.SObs, x *drv.SRun) string {
+	for _, op := range st.Ops {
+		if st.K == "ops" {
+			a.ops[op.ID] = op
+		}
+	}
+	for _, rsp := range o.Resps {
+		for _, res := range rsp.GetResult() {
+			if res.GetStatus() != spb.AFTResult_RIB_PROGRAMMED {
+				continue
+			}
+			op, ok := a.ops[res.GetId()]
+			if !ok {
+				return fmt.Sprintf("step %d: RIB_PROGRAMMED for id %d, which was never sent", i, res.GetId())
+			}
+			switch op.Kind {
+			case "ADD":
+				a.spec[keyText(op)] = payloadText(op)
+			case "REPLACE":
+				if _, ok := a.spec[keyText(op)]; !ok {
+					return fmt.Sprintf("step %d: REPLACE id %d acknowledged but its key %s was not installed", i, op.ID, keyText(op))
+				}
+				a.spec[keyText(op)] = payloadText(op)
+			case "DELETE":
+				delete(a.spec, keyText(op))
+			}
+		}
+	}
+	if st.K == "flush" && o.FlushSt == "F_OK" {
+		sel := map[int]bool{}
+		if st.Flush.NI == "all" {
+			sel = map[int]bool{1: true, 2: true, 3: true}
+		} else {
+			sel[st.Flush.Name] = true
+		}
+		for k := range a.spec {
+			for n := range sel {
+				if strings.HasPrefix(k, fmt.Sprintf("%d|", n)) {
+					delete(a.spec, k)
+				}
+			}
+		}
+	}
+	got, err := implText(x.D.S.VerifRIB())
+	if err != nil {
+		return fmt.Sprintf("step %d: RIBContents: %v", i, err)
+	}
+	if st.K == "ops" && o.End != nil {
+		// the request ended the RPC: results of its earlier operations race with the termination of the stream and may
+		// be lost although the operations were applied - the fold restarts from what is installed
+		a.spec = got
+		return ""
+	}
+	if d := diffSpec(a.spec, got); d != "" {
+		return fmt.Sprintf("step %d (%s): entries installed in the server differ from the fold of the operations acknowledged on the streams: %s", i, st.K, d)
+	}
+	return ""
+}
+
 // ---------------------------------------------------------------------------- command
 
 func runSrv(prop string, args []string) error {
@@ -772,11 +883,16 @@ func runSrv(prop string, args []string) error {
 			return err
 		}
 	} else {
+		gprof := prop
+		if prop == "C01S" {
+			gprof = "C06"
+		}
 		for i := 0; i < *f.N; i++ {
-			cases = append(cases, genSCase(r, prop))
+			cases = append(cases, genSCase(r, gprof))
 		}
 	}
 	rules := map[string]string{
+		"C01S": "the multi-session scripts of C06 (held operations that later resolve or fail, batches, hand-overs, Flush, both acknowledgement modes), judged after every step by: entries installed in the server's RIB = fold of the operations acknowledged RIB_PROGRAMMED on any stream (by id) and of the authorised flushes; non-trivial = some operation was held and acknowledged later; distinct by script text",
 		"C04": "multi-session scripts (connect / negotiate / announce / operate / disconnect, Get, Flush) with operation stamps drawn from {own last, highest, stale, future, none}; non-trivial = at least two sessions announced and at least one operation was rejected and one accepted; distinct by script text",
 		"C06": "one to three sessions (a fifth of the scripts: held explicit replaces whose entry is deleted before the missing group arrives, so that the retry fails), requests of 1..20 operations, held operations that later resolve or fail, empty/unknown instance names, primary hand-overs, RIB and FIB acknowledgement modes; non-trivial = some operation was held and acknowledged later, or a hand-over happened while operations were held; distinct by script text",
 		"C08": "a primary programs RIB shapes biased to shared / missing / cyclic backup groups and cross-instance references, then Flush requests over the decision table (instance none/all/name/unknown x election none/override/zero/lower/equal/higher, with and without server election state), Get before and after, delete probes; non-trivial = an authorised flush removed at least one entry while another instance kept entries, or a flush was rejected on a non-empty RIB; distinct by script text",
@@ -792,9 +908,23 @@ func runSrv(prop string, args []string) error {
 		}
 		obs := []drv.SObs{}
 		snaps := []string{x.Snapshot()}
-		for _, st := range c.Steps {
+		fold := newAckFold()
+		foldProblem := ""
+		for j, st := range c.Steps {
 			obs = append(obs, x.Step(st))
 			snaps = append(snaps, x.Snapshot())
+			if prop == "C01S" && foldProblem == "" {
+				foldProblem = fold.observe(j, st, obs[j], x)
+			}
+			if prop == "C08" && foldProblem == "" {
+				// deletion protection agrees with what remains: every counter = number of installed referrers
+				if p := refcountProblem(x.D.S.VerifRIB()); p != "" {
+					foldProblem = fmt.Sprintf("step %d (%s): %s", j, st.K, p)
+				}
+			}
+		}
+		if foldProblem != "" {
+			rep.Violations = append(rep.Violations, drv.Verdict{Case: i, Problem: foldProblem})
 		}
 		if p := runOracle(prop, c, x, obs, snaps); p != "" {
 			rep.Violations = append(rep.Violations, drv.Verdict{Case: i, Problem: p})
@@ -844,7 +974,7 @@ func runSrv(prop string, args []string) error {
 		switch prop {
 		case "C04":
 			nt = len(announcers) >= 2 && rejected && accepted
-		case "C06":
+		case "C06", "C01S":
 			nt = heldLater
 		case "C09":
 			nt = ends > 0
